@@ -55,8 +55,8 @@ grammar = r"""
         | "{" term ("," term)* "}" -> literal_set   // Set
         | "{" CNAME "::" type ". " term "}" -> collect_set
         | "{" CNAME ". " term "}"          -> collect_set_notype
-        | "'" ("_"|LETTER|DIGIT) "'"  -> char
-        | "\"" CNAME "\""               -> string
+        | "'" (UNDERSCORE|LETTER|DIGIT) "'"  -> char
+        | STRLIT                        -> string
         | "if" term "then" term "else" term  -> if_expr // if expression
         | "(" term ")(" term ":=" term ("," term ":=" term)* ")"   -> fun_upd // function update
         | "{" term ".." term "}"   -> nat_interval
@@ -140,6 +140,9 @@ grammar = r"""
 
     term_list: term ("," term)*   // list of terms
 
+    UNDERSCORE: "_"
+    STRLIT: /"[^"\n]*"/
+
     %import common.CNAME
     %import common.WS
     %import common.INT
@@ -205,7 +208,7 @@ class HOLTransformer(Transformer):
 
     def string(self, s):
         from data import string
-        return string.mk_string(str(s))
+        return string.mk_string(str(s)[1:-1])
 
     def if_expr(self, P, x, y):
         return Const("IF", None)(P, x, y)
